@@ -5,6 +5,7 @@ package main
 import (
 	"encoding/json"
 	"fmt"
+	"net/http"
 	"net/url"
 	"os"
 	"path/filepath"
@@ -14,6 +15,8 @@ import (
 	"sync"
 
 	"github.com/google/pprof/internal/driver"
+	"github.com/google/pprof/internal/plugin"
+	"github.com/google/pprof/internal/transport"
 )
 
 // jsTable ships encoding/json's string round trip (invalid UTF-8 is coerced to U+FFFD).
@@ -240,6 +243,19 @@ func runC19Settings(c *Ctx, fields []driver.VerifField) {
 		q := url.Values{"config": {"w"}, "f": {"k\xff"}}
 		seqCase("finding-F25", driver.VerifDefaultConfig(), "absent", nil, nil, []c19Op{{kind: "save", q: q}})
 	}
+	// more of class F25: invalid UTF-8 in option values and names, followed by menu / delete / re-save
+	bad := []string{"k\xff", "\xc3(", "a\x80b", "\xed\xa0\x80"}
+	for k := 0; k < c.Budget(3, 200); k++ {
+		name := PickS(c.R, []string{"w", PickS(c.R, bad)})
+		ops := []c19Op{{kind: "save", q: url.Values{"config": {name}, PickS(c.R, []string{"f", "i", "unit", "tf"}): {PickS(c.R, bad)}}}}
+		ops = append(ops, c19Op{kind: "menu", q: url.Values{}})
+		if c.R.Bool() {
+			ops = append(ops, c19Op{kind: "delete", name: name})
+		} else {
+			ops = append(ops, c19Op{kind: "save", q: url.Values{"config": {name}, "n": {"3"}}})
+		}
+		seqCase("seq-F25", driver.VerifDefaultConfig(), "absent", nil, nil, ops)
+	}
 	runC19Conc(c, fields)
 }
 
@@ -281,6 +297,23 @@ func runC19Conc(c *Ctx, fields []driver.VerifField) {
 			opT = append(opT, o.term())
 			collect(strs, o.q)
 		}
+		// half of the cases go through the real HTTP handlers /saveconfig and /deleteconfig (one
+		// goroutine per request, settings file located through $XDG_CONFIG_HOME), the others call
+		// setConfig / removeConfig directly
+		var handlers map[string]http.Handler
+		viaHTTP := k%2 == 0
+		if viaHTTP {
+			os.Setenv("XDG_CONFIG_HOME", dir)
+			o := driver.VerifSetDefaults(&plugin.Options{UI: nullUI{}, Writer: &memWriter{}, HTTPTransport: transport.New(nil)})
+			restoreG := driver.VerifGlobals()
+			h, err := driver.VerifWeb(c10Profile(NewRng(uint64(k)+7)), o)
+			restoreG()
+			driver.VerifSetCurrentConfig(cur)
+			if err != nil {
+				panic(err)
+			}
+			handlers = h
+		}
 		var wg sync.WaitGroup
 		start := make(chan struct{})
 		for _, o := range ops {
@@ -288,9 +321,14 @@ func runC19Conc(c *Ctx, fields []driver.VerifField) {
 			go func(o c19Op) {
 				defer wg.Done()
 				<-start
-				if o.kind == "save" {
+				switch {
+				case viaHTTP && o.kind == "save":
+					c10Do(handlers, c10Req{"/saveconfig", o.q})
+				case viaHTTP:
+					c10Do(handlers, c10Req{"/deleteconfig", url.Values{"config": {o.name}}})
+				case o.kind == "save":
 					driver.VerifSetConfig(fname, urlOf(o.q))
-				} else {
+				default:
 					driver.VerifRemoveConfig(fname, o.name)
 				}
 			}(o)
@@ -298,7 +336,7 @@ func runC19Conc(c *Ctx, fields []driver.VerifField) {
 		close(start)
 		wg.Wait()
 		in := L(S("conc"), pfTable(strs), jsTable(strs), cfgTerm(cur), initT, L(opT...))
-		c.Case("conc", in, settingsState(fname), true, "op:conc", fmt.Sprintf("conc:%d", n))
+		c.Case("conc", in, settingsState(fname), true, "op:conc", fmt.Sprintf("conc:%d", n), fmt.Sprintf("conc-http:%v", viaHTTP))
 		os.RemoveAll(dir)
 	}
 }
